@@ -153,6 +153,10 @@ var c12Actions = []struct {
 	{"function-error", `map("a")`, false, ""},
 	{"function-error", "isset()", false, ""},
 	{"function-error", "wrappedfn()", false, ""},
+	// names that have just gone out of scope are unknown again: the variable of a catch clause after the try, a
+	// variable declared in an if body that held a handled failure
+	{"unknown-identifier", "try }}{{ noSuchVariable }}{{ catch caughtErr }}c{{ end }}{{ caughtErr", true, "c"},
+	{"unknown-identifier", "if true }}{{ inner := 1 }}{{ try }}{{ noSuchVariable }}{{ catch e2 }}d{{ end }}{{ end }}{{ inner", true, "d"},
 	{"call-kind", `fnilfn("a")`, true, ""},
 	{"call-kind", `fstr | fnilfn`, true, ""},
 	{"call-kind", `fholder.F("a")`, true, ""},
